@@ -143,6 +143,132 @@ static RM ref3(const asl::Matrix3_<Fp>& m)
 	return r;
 }
 
+static RM scaled(const RM& A, const Fp& t)
+{
+	RM m = A;
+	for (auto& v : m.a)
+		v = v * t;
+	return m;
+}
+static RM added(const RM& A, const RM& B)
+{
+	RM m = A;
+	for (size_t i = 0; i < m.a.size(); i++)
+		m.a[i] = m.a[i] + B.a[i];
+	return m;
+}
+
+// Compound and self-aliased forms of the operations the identities are stated with: every one must give what the
+// out-of-place operation gives (computed by the harness), also when an operand is the very object being updated.
+static void check_inplace(const asl::Matrix4_<Fp>& M, const RM& A, const RM* B)
+{
+	typedef asl::Matrix4_<Fp> M4;
+	Fp d = M.det();
+	RM AA = A * A;
+	{
+		M4 C = M;
+		M4& r = (C *= C); // both operands are the same object
+		VF_CHECK(&r == &C, "Matrix4::operator*= does not return *this");
+		VF_CHECK(ref4(C) == AA, "M *= M differs from M * M for M=", show(A), ": got ", show(ref4(C)), " expected ", show(AA));
+		VF_CHECK(C.det() == d * d, "det(M *= M) = ", C.det(), " != det(M)^2 = ", d * d, " for M=", show(A));
+	}
+	{
+		M4 C = M;
+		const M4& same = C; // M *= ref where ref refers to M
+		C *= same;
+		VF_CHECK(ref4(C) == AA, "M *= (reference to M) differs from M * M for M=", show(A));
+	}
+	{
+		M4 C = M;
+		C = C * C;
+		VF_CHECK(ref4(C) == AA, "M = M * M differs from the harness product for M=", show(A));
+		C = M;
+		C = C.transposed();
+		VF_CHECK(ref4(C) == A.t(), "M = M.transposed() is not the transpose of ", show(A));
+		C = M;
+		C = C + C;
+		VF_CHECK(ref4(C) == added(A, A), "M = M + M != 2M for M=", show(A));
+		C = C - M;
+		VF_CHECK(ref4(C) == A, "(M + M) - M != M for M=", show(A));
+		C = C - C;
+		VF_CHECK(ref4(C) == RM(4, 4), "M - M != 0 for M=", show(A));
+	}
+	{
+		// scalar forms, the scalar being an element of the matrix that is updated
+		M4 C = M;
+		Fp t = A(1, 2);
+		C *= C(1, 2);
+		VF_CHECK(ref4(C) == scaled(A, t), "M *= M(1,2) differs from M(1,2) * M for M=", show(A));
+		VF_CHECK(ref4(M * t) == scaled(A, t) && ref4(t * M) == scaled(A, t), "M * t / t * M differ from the element-wise product for M=", show(A));
+		VF_CHECK(C.det() == t * t * t * t * d, "det(t M) != t^4 det(M) for M=", show(A));
+	}
+	if (B) {
+		M4 N = lib4(*B), C = M;
+		C *= N;
+		RM AB = A * *B;
+		VF_CHECK(ref4(C) == AB, "A *= B differs from A * B for A=", show(A), " B=", show(*B));
+		VF_CHECK(ref4(N) == *B, "A *= B modified B");
+		(C *= N) *= N; // chained through the returned reference
+		VF_CHECK(ref4(C) == AB * *B * *B, "(A *= B) *= B differs from A B B B");
+		M4 L = N;
+		L = M * L; // the assigned object is the right operand
+		VF_CHECK(ref4(L) == AB, "B = A * B differs from A * B for A=", show(A), " B=", show(*B));
+		VF_CHECK(C.det() == d * N.det() * N.det() * N.det(), "det(A B B B) != det(A) det(B)^3");
+	}
+	cls("Matrix4.compound+aliased-forms");
+}
+
+static void check_inplace(const asl::Matrix3_<Fp>& M, const RM& A, const RM* B)
+{
+	typedef asl::Matrix3_<Fp> M3;
+	Fp d = M.det();
+	(void)B;
+	bool affine = A(2, 0).zero() && A(2, 1).zero() && A(2, 2) == Fp(1);
+	{
+		M3 C = M;
+		C = C.transposed();
+		VF_CHECK(ref3(C) == A.t(), "M = M.transposed() is not the transpose of ", show(A));
+		C = M;
+		C = C + C;
+		VF_CHECK(ref3(C) == added(A, A), "M = M + M != 2M for M=", show(A));
+	}
+	{
+		M3 C = M;
+		Fp t = A(1, 2);
+		M3& r = (C *= C(1, 2));
+		VF_CHECK(&r == &C, "Matrix3::operator*=(T) does not return *this");
+		VF_CHECK(ref3(C) == scaled(A, t), "M *= M(1,2) differs from M(1,2) * M for M=", show(A));
+		VF_CHECK(ref3(M * t) == scaled(A, t) && ref3(t * M) == scaled(A, t), "M * t / t * M differ from the element-wise product for M=", show(A));
+		VF_CHECK(C.det() == t * t * t * d, "det(t M) != t^3 det(M) for M=", show(A));
+	}
+	if (affine) {
+		// Matrix3 has no operator*=(Matrix3); the self-assigned product on an affine matrix (documented use)
+		M3 C = M;
+		C = C * C;
+		VF_CHECK(ref3(C) == A * A, "M = M * M differs from the harness product for the affine M=", show(A));
+		VF_CHECK(C.det() == d * d, "det(M * M) != det(M)^2 for the affine M=", show(A));
+	}
+	cls("Matrix3.compound+aliased-forms");
+}
+
+static void check_self_inverse(const asl::Matrix4_<Fp>& M, const RM& A, const RM& RX)
+{
+	asl::Matrix4_<Fp> C = M;
+	C = C.inverse();
+	VF_CHECK(ref4(C) == RX, "M = M.inverse() differs from inverse(M) for M=", show(A));
+	C *= M;
+	VF_CHECK(is_identity(ref4(C)), "(M = M.inverse()) *= M_original != I for M=", show(A));
+	C = M;
+	C *= C.inverse();
+	VF_CHECK(is_identity(ref4(C)), "M *= M.inverse() != I for M=", show(A));
+}
+static void check_self_inverse(const asl::Matrix3_<Fp>& M, const RM& A, const RM& RX)
+{
+	asl::Matrix3_<Fp> C = M;
+	C = C.inverse();
+	VF_CHECK(ref3(C) == RX, "M = M.inverse() differs from inverse(M) for M=", show(A));
+}
+
 template <class LM>
 static void check_fixed(const std::string& tag, int n, const RM& A, const RM* B, LM (*tolib)(const RM&), RM (*toref)(const LM&),
                         const vf::Case& c)
@@ -185,6 +311,7 @@ static void check_fixed(const std::string& tag, int n, const RM& A, const RM* B,
 		VF_CHECK(tolib(AB).det() == d * LB.det(), "det(AB) = ", tolib(AB).det(), " != det(A) det(B) = ", d * LB.det(), " for A=", show(A),
 		         " B=", show(*B));
 	}
+	check_inplace(M, A, B);
 	if (dref.zero()) {
 		cls(tag + ".singular(det-only)");
 		return;
@@ -202,6 +329,7 @@ static void check_fixed(const std::string& tag, int n, const RM& A, const RM* B,
 	}
 	VF_CHECK(X.det() * d == Fp(1), "det(inverse(M)) * det(M) != 1 for M=", show(A));
 	VF_CHECK(toref(X.inverse()) == A, "inverse(inverse(M)) != M for M=", show(A));
+	check_self_inverse(M, A, RX);
 	cls(tag + (affine ? ".affine" : ".general"));
 	if (zero_on_diagonal(A))
 		cls(tag + ".zero-on-diagonal");
@@ -274,6 +402,70 @@ static void pivot_stats(RM A, int& exchanges, int& forced)
 	}
 }
 
+// Matrix_: += -= *= negate copy swapRows and the self-assigned forms A = A * A, A = A.transposed(), A = A.inverse(),
+// A = solve(A, b), b = solve(A, b), solve(A, A); each compared with the out-of-place value computed by the harness.
+// Every object used here owns its storage (clone()): handles that share one block are the subject of C01, not of C20.
+static void check_matrix_inplace(const asl::Matrix_<Fp>& LA, const asl::Matrix_<Fp>& Lb, const RM& A, const RM& b, const RM* X, const RM* x)
+{
+	typedef asl::Matrix_<Fp> MX;
+	int rows = A.r, cols = A.c;
+	{
+		MX C = LA.clone();
+		C += C;
+		VF_CHECK(refm(C) == added(A, A), "A += A != 2A for Matrix_ A=", show(A));
+		C -= LA;
+		VF_CHECK(refm(C) == A, "(A += A) -= A != A for Matrix_ A=", show(A));
+		C -= C;
+		VF_CHECK(refm(C) == RM(rows, cols), "A -= A != 0 for Matrix_ A=", show(A));
+		C = LA.clone();
+		Fp t = A(rows - 1, 0);
+		C *= C(rows - 1, 0); // the scalar is an element of the matrix being scaled (passed by value)
+		VF_CHECK(refm(C) == scaled(A, t), "A *= A(last,0) differs from the element-wise product for Matrix_ A=", show(A));
+		VF_CHECK(refm(LA * t) == scaled(A, t) && refm(t * LA) == scaled(A, t), "A * t / t * A differ from the element-wise product for Matrix_ A=", show(A));
+		C = LA.clone();
+		C.negate();
+		VF_CHECK(refm(C) == scaled(A, Fp(-1)) && refm(-LA) == scaled(A, Fp(-1)), "negate() / unary minus != -A for Matrix_ A=", show(A));
+		VF_CHECK(refm(LA + LA) == added(A, A) && refm((LA + LA) - LA) == A, "A + A / (A + A) - A wrong for Matrix_ A=", show(A));
+		C = LA.clone();
+		C.copy(C);
+		VF_CHECK(refm(C) == A, "A.copy(A) changed A=", show(A));
+		C.copy(Lb);
+		VF_CHECK(refm(C) == b, "A.copy(b) != b");
+		C = LA.clone();
+		C.swapRows(0, rows - 1);
+		C.swapRows(rows - 1, 0);
+		C.swapRows(0, 0);
+		VF_CHECK(refm(C) == A, "swapRows twice / with itself changed A=", show(A));
+		C = C.transposed();
+		VF_CHECK(refm(C) == A.t(), "A = A.transposed() is not the transpose for Matrix_ A=", show(A));
+		C = LA.clone();
+		C = C.transposed(C);
+		VF_CHECK(refm(C) == A.t() * A, "A = A.transposed(A) != A^T A for Matrix_ A=", show(A));
+		VF_CHECK(refm(LA) == A && refm(Lb) == b, "an in-place operation on a clone changed the original");
+	}
+	if (rows == cols) {
+		MX C = LA.clone();
+		C = C * C;
+		VF_CHECK(refm(C) == A * A, "A = A * A differs from the harness product for Matrix_ A=", show(A));
+		VF_CHECK(refm(LA * LA) == A * A, "A * A (same object twice) differs from the harness product for Matrix_ A=", show(A));
+	}
+	if (X && rows <= 6) { // n right-hand sides each: kept to the smaller sizes, the code path does not depend on n
+		MX C = LA.clone();
+		C = C.inverse();
+		VF_CHECK(refm(C) == *X, "A = A.inverse() differs from inverse(A) for Matrix_ A=", show(A));
+		VF_CHECK(is_identity(refm(asl::solve(LA, LA))), "solve(A, A) != I for Matrix_ A=", show(A));
+	}
+	if (x) {
+		MX C = LA.clone(), D = Lb.clone();
+		D = asl::solve(C, D); // the right-hand side is overwritten by the solution
+		VF_CHECK(refm(D) == *x, "b = solve(A, b) differs from solve(A, b) for A=", show(A), " b=", show(b));
+		VF_CHECK(refm(C) == A, "solve(A, b) modified A=", show(A));
+		C = asl::solve(C, Lb); // the matrix is overwritten by the solution
+		VF_CHECK(refm(C) == *x, "A = solve(A, b) differs from solve(A, b) for A=", show(A), " b=", show(b));
+	}
+	cls("Matrix_.compound+aliased-forms");
+}
+
 static void run_solve(const vf::Case& c)
 {
 	fp61::order_salt() = 0;
@@ -320,6 +512,10 @@ static void run_solve(const vf::Case& c)
 		RM RX = refm(Xi);
 		VF_CHECK(is_identity(A * RX), "A * A.inverse() != I for Matrix_ A=", show(A), " salt=", fp61::order_salt());
 		VF_CHECK(is_identity(RX * A), "A.inverse() * A != I for Matrix_ A=", show(A), " salt=", fp61::order_salt());
+		{
+			RM rx = refm(x);
+			check_matrix_inplace(LA, Lb, A, b, &RX, &rx);
+		}
 		if (g_collect) {
 			int ex = 0, forced = 0;
 			pivot_stats(A, ex, forced);
@@ -356,6 +552,10 @@ static void run_solve(const vf::Case& c)
 		VF_CHECK(G * refm(x) == h, "A^T A x != A^T b for the ", sz, " system A=", show(A), " b=", show(b), " salt=", fp61::order_salt(), ": x=", show(refm(x)));
 		// the documented shortcut A.transposed(B) = A^T B
 		VF_CHECK(refm(LA.transposed(Lb)) == h, "A.transposed(b) != A^T b for A=", show(A), " b=", show(b));
+		{
+			RM rx = refm(x);
+			check_matrix_inplace(LA, Lb, A, b, 0, &rx);
+		}
 		if (g_collect) {
 			int ex = 0, forced = 0;
 			pivot_stats(G, ex, forced);
@@ -666,6 +866,12 @@ void vf_search(const vf::Args& a)
 {
 	using namespace rc;
 	g_collect = true;
+	double t_last = vf::now();
+	auto lap = [&](const char* what) { // per-part wall time in the worker log (diagnostics only, no decision depends on it)
+		double t = vf::now();
+		fprintf(stderr, "[time] %s %.1fs\n", what, t - t_last);
+		t_last = t;
+	};
 	auto seed64 = gen::arbitrary<uint64_t>();
 
 	for (const char* part : {"m4", "m3"}) {
@@ -678,7 +884,9 @@ void vf_search(const vf::Args& a)
 					kb = K_AFFINE;
 				return gen_fixed_case(part, n, std::get<0>(t), kb, std::get<2>(t));
 			});
-			if (!vf::check_cases(part, a.n(30000, 80000), 100, g))
+			bool ok = vf::check_cases(part, a.n(20000, 80000), 100, g);
+			lap(part);
+			if (!ok)
 				return;
 			std::string sp = part;
 			sweep(a, sp, a.n(0, 250000), [=](SplitMix& r) {
@@ -695,7 +903,9 @@ void vf_search(const vf::Args& a)
 		auto g = gen::map(gen::tuple(vf::irange<int>(0, K_COUNT - 3), gen::weightedOneOf<int>({{1, vf::irange<int>(1, 3)}, {3, vf::irange<int>(2, 12)}, {1, gen::just(12)}}),
 		                             vf::irange<int>(1, 4), seed64),
 		                  [](const std::tuple<int, int, int, uint64_t>& t) { return gen_solve_case(std::get<0>(t), std::get<1>(t), 0, std::get<2>(t), std::get<3>(t)); });
-		if (!vf::check_cases("solve", a.n(9000, 24000), 100, g))
+		bool ok = vf::check_cases("solve", a.n(6000, 24000), 100, g);
+		lap("solve(square)");
+		if (!ok)
 			return;
 		sweep(a, "solve", a.n(0, 60000), [](SplitMix& r) {
 			int k = (int)r.below(K_COUNT - 2), w = (int)r.below(5);
@@ -709,7 +919,9 @@ void vf_search(const vf::Args& a)
 		                  [](const std::tuple<int, int, int, int, uint64_t>& t) {
 			                  return gen_solve_case(std::get<0>(t), std::get<1>(t), std::get<2>(t), std::get<3>(t), std::get<4>(t));
 		                  });
-		if (!vf::check_cases("solve", a.n(4000, 10000), 100, g))
+		bool ok = vf::check_cases("solve", a.n(2500, 10000), 100, g);
+		lap("solve(over-determined)");
+		if (!ok)
 			return;
 		sweep(a, "solve", a.n(0, 25000), [](SplitMix& r) {
 			int k = (int)r.below(K_COUNT - 2);
@@ -719,7 +931,9 @@ void vf_search(const vf::Args& a)
 	[&]() {
 		auto g = gen::map(gen::tuple(vf::irange<int>(0, 3), vf::irange<int>(0, 2), seed64),
 		                  [](const std::tuple<int, int, uint64_t>& t) { return gen_quat_case(std::get<0>(t), std::get<1>(t), std::get<2>(t)); });
-		if (!vf::check_cases("quat", a.n(15000, 40000), 100, g))
+		bool ok = vf::check_cases("quat", a.n(15000, 40000), 100, g);
+		lap("quat");
+		if (!ok)
 			return;
 		sweep(a, "quat", a.n(0, 120000), [](SplitMix& r) { return gen_quat_case((int)r.below(4), (int)r.below(3), r.next()); });
 	}();
